@@ -167,8 +167,15 @@ class ModbusBinaryFramer(ModbusFramer):
         while self.isFrameReady():
             if self.checkFrame():
                 if self._validate_unit_id(unit, single):
-                    result = self.decoder.decode(self.getFrame())
+                    try:
+                        result = self.decoder.decode(self.getFrame())
+                    except Exception:
+                        # a frame the decoder cannot take must not stay
+                        # in the buffer
+                        self.advanceFrame()
+                        raise
                     if result is None:
+                        self.advanceFrame()
                         raise ModbusIOException("Unable to decode response")
                     self.populateResult(result)
                     self.advanceFrame()
